@@ -50,6 +50,18 @@ PROPS['C07'] = dict(level='proof', steps=[V('reader'), V('writer'), E3('c07-hist
                 text='Xref::merge never replaces an existing (newer) entry and adds every other one; incremental save emits the previous bytes unchanged followed by exactly one well-formed revision; startxref discovery takes the last occurrence (all unbounded, Verus). The Prev-chain loop and object-stream merge inside Reader::read are exercised on bounded histories only.',
                 note='Reader::read (Prev loop, object-stream merge) is not under contract: bounded stand-in; nom parsers trusted')
 
+PROPS['C04'] = dict(level='proof', steps=[V('stream'), V('reader'), E3('c04-hostile')],
+                title='Parsing untrusted bytes never panics, aborts or hangs',
+                technique='Verus robustness obligations (overflow, bounds, unwrap, termination, allocation bound) on the byte-level decoders that are not nom combinators; worker-process sweeps of hostile inputs for the rest',
+                text='for every input: PNG predictor decoding, predictor geometry, ASCII85 decoding and startxref search neither overflow, index out of range, loop without progress nor allocate beyond a linear bound (Verus, no preconditions beyond call-site facts). The nom grammar, cross-reference stream decoding, object streams, CMaps and text decoding are covered by the bounded sweep only.',
+                note='nom/flate2/weezl/encoding_rs assumed not to panic; allocation within the granted bound assumed to succeed')
+
+PROPS['C02'] = dict(level='proof', steps=[V('stream'), V('reader'), E3('c02-reader')],
+                title='Well-formed PDFs from any producer load to their content',
+                technique='Verus contracts on the non-nom decoders (PNG predictors, ASCII85, startxref search); reference writer x enumerated syntactic choices through the real loader for the nom grammar',
+                text='structural-stream decoding (Flate predictor 10-15 geometry and PNG reconstruction, ASCII85) and startxref discovery are proved for all inputs (Verus); the lexical and cross-reference grammar (nom) is compared with an independent reference writer over every combination of a bounded set of syntactic choices.',
+                note='the nom grammar itself is outside both verifiers: bounded stand-in; flate2 assumed')
+
 NOT_APPLICABLE = {
     'C18': "every clause is about what chrono/jiff/time format and parse; the crate's own code is two string edits, so no contract within either verifier's reach expresses the property",
 }
